@@ -2,9 +2,20 @@
 //!
 //! op:  `best|first <i64|u64|f64> <threads> <n> <w…> <m> <ids…>`
 //!      (weights are integers in every weight type; `f64` weights are the same integers
-//!      converted exactly; `threads` = size of the rayon pool the call runs in)
+//!      converted exactly; `f64e971` = the same integers times 2^971, i.e. f64 weights up to
+//!      2^1023 with finite totals – exact too, every operation of the code is homogeneous;
+//!      `threads` = size of the rayon pool the call runs in)
 //!      `twice best|first <case A> <case B>` (case = `<ty> <threads> <n> <w…> <m> <ids…>`):
 //!      two successive calls through the SAME algorithm value and the SAME array buffer
+//!      type token grammar: `<base>[e<k>][@<variant>]`, base in i64 u64 f64 i32 u32 f32 usize i128
+//!      (every type the trait bounds admit that is cheap to try); `f64e<k>`: the integers times
+//!      2^k, -1073 <= k <= 971 (subnormal … near-overflow f64 weights, exact and homogeneous);
+//!      `@<variant>`: the Rust input type the weights are handed over in (VnBest: vec
+//!      slice_copied map filter flat_map from_fn chain deque boxdyn array rev_rev tools;
+//!      VnFirst: vec boxed subslice array tools; `tools` = through coupe_tools::parse_algorithm);
+//!      a weight token `-0` is the float -0.0; threads token: `<n>` = inside pool.install,
+//!      `g` = global pool, `<n>j` = inside a rayon::join task, `<n>s` = inside a scope spawn
+//!      `many best|first <pool> <k> <case>*k`: k calls at once (par_iter().for_each) in one pool
 //! out: `ok <returned count> | <ids afterwards>` | `negative` | `lenmismatch` | `panic …` | `hang`
 //!      (`twice`: the two outputs joined by ` ;; `)
 
@@ -35,17 +46,81 @@ fn pool(threads: usize) -> Pool {
 /// One input: weight type, pool size, weights (exact integers), part ids.
 #[derive(Clone)]
 struct Case {
+    /// full type token `<base>[e<k>][@<variant>]`
     ty: String,
+    /// pool size of the call (context `install` unless `ctxt` says otherwise)
     threads: usize,
+    /// calling context: "" = pool.install, "g" = global pool, "j" = inside rayon::join, "s" = scope spawn
+    ctxt: &'static str,
     ws: Vec<i128>,
+    /// positions whose zero weight is the float -0.0
+    nz: Vec<bool>,
     ids: Vec<usize>,
+}
+
+/// Parsed type token.
+struct TySpec<'a> {
+    base: &'a str,
+    /// `f64e<k>`: weights are the integers times 2^k
+    scale: Option<i32>,
+    variant: &'a str,
+}
+
+const BEST_VARIANTS: [&str; 12] =
+    ["vec", "slice_copied", "map", "filter", "flat_map", "from_fn", "chain", "deque", "boxdyn", "array", "rev_rev", "tools"];
+const FIRST_VARIANTS: [&str; 5] = ["vec", "boxed", "subslice", "array", "tools"];
+
+fn ty_spec(ty: &str) -> Option<TySpec<'_>> {
+    let (head, variant) = match ty.split_once('@') {
+        Some((h, v)) => (h, v),
+        None => (ty, "vec"),
+    };
+    let (base, scale) = if let Some(k) = head.strip_prefix("f64e") {
+        let k: i32 = k.parse().ok()?;
+        if !(-1073..=971).contains(&k) {
+            return None;
+        }
+        ("f64", Some(k))
+    } else {
+        (head, None)
+    };
+    if !["i64", "u64", "f64", "i32", "u32", "f32", "usize", "i128"].contains(&base) {
+        return None;
+    }
+    Some(TySpec { base, scale, variant })
+}
+
+fn is_float(base: &str) -> bool {
+    base == "f64" || base == "f32"
+}
+
+/// the 64-bit type of the same class (signed / unsigned / float)
+fn base64(base: &str) -> &'static str {
+    match base {
+        "i64" | "i32" | "i128" => "i64",
+        "u64" | "u32" | "usize" => "u64",
+        _ => "f64",
+    }
+}
+
+fn plain(ty: &str, threads: usize, ws: Vec<i128>, ids: Vec<usize>) -> Case {
+    let n = ws.len();
+    Case { ty: ty.to_string(), threads, ctxt: "", ws, nz: vec![false; n], ids }
 }
 
 fn push_case(s: &mut String, c: &Case) {
     use std::fmt::Write as _;
-    write!(s, " {} {} {}", c.ty, c.threads, c.ws.len()).unwrap();
-    for w in &c.ws {
-        write!(s, " {}", w).unwrap();
+    if c.ctxt == "g" {
+        write!(s, " {} g {}", c.ty, c.ws.len()).unwrap();
+    } else {
+        write!(s, " {} {}{} {}", c.ty, c.threads, c.ctxt, c.ws.len()).unwrap();
+    }
+    for (j, w) in c.ws.iter().enumerate() {
+        if c.nz.get(j).copied().unwrap_or(false) && *w == 0 {
+            s.push_str(" -0");
+        } else {
+            write!(s, " {}", w).unwrap();
+        }
     }
     write!(s, " {}", c.ids.len()).unwrap();
     for p in &c.ids {
@@ -61,10 +136,7 @@ fn format_case(algo: &str, c: &Case) -> String {
 }
 
 fn format_op(algo: &str, ty: &str, threads: usize, ws: &[i64], ids: &[usize]) -> String {
-    format_case(
-        algo,
-        &Case { ty: ty.to_string(), threads, ws: ws.iter().map(|&w| w as i128).collect(), ids: ids.to_vec() },
-    )
+    format_case(algo, &plain(ty, threads, ws.iter().map(|&w| w as i128).collect(), ids.to_vec()))
 }
 
 fn format_twice(algo: &str, a: &Case, b: &Case) -> String {
@@ -75,40 +147,72 @@ fn format_twice(algo: &str, a: &Case, b: &Case) -> String {
     s
 }
 
-/// The exactness contract of the protocol ("sums that do not overflow", integers exact in f64):
-/// i64: the sum of the absolute values fits i64; u64: no negative weight, the total fits u64;
-/// f64: the sum of the absolute values stays below 2^53.
-fn in_contract(c: &Case) -> bool {
+/// The exactness contract of the protocol ("sums that do not overflow", integers exact in the
+/// float types): signed: the sum of the absolute values fits the type; unsigned: no negative
+/// weight, the total fits; f64 (any scale): the sum of the absolute values stays below 2^53;
+/// f32: below 2^24.  The variant must exist for the algorithm (`array`: 4 or 8 weights).
+fn in_contract(algo: &str, c: &Case) -> bool {
+    let Some(t) = ty_spec(&c.ty) else { return false };
+    let variants: &[&str] = if algo == "best" { &BEST_VARIANTS } else { &FIRST_VARIANTS };
+    if !variants.contains(&t.variant) {
+        return false;
+    }
+    if t.variant == "array" && !(c.ws.len() == 4 || c.ws.len() == 8) {
+        return false;
+    }
+    if t.variant == "tools" && !(t.base == "i64" || (t.base == "f64")) {
+        return false;
+    }
+    if c.nz.iter().any(|&z| z) && !is_float(t.base) {
+        return false;
+    }
     let abs: i128 = c.ws.iter().map(|w| w.abs()).sum();
-    match c.ty.as_str() {
+    let nonneg = c.ws.iter().all(|&w| w >= 0);
+    match t.base {
         "i64" => abs <= i64::MAX as i128,
-        "u64" => c.ws.iter().all(|&w| w >= 0) && abs <= u64::MAX as i128,
+        "u64" | "usize" => nonneg && abs <= u64::MAX as i128,
+        "i32" => abs <= i32::MAX as i128,
+        "u32" => nonneg && abs <= u32::MAX as i128,
+        "i128" => abs < (1i128 << 100),
+        "f32" => abs < (1i128 << 24),
         _ => abs < (1i128 << 53),
     }
 }
 
 fn parse_case<'a>(it: &mut impl Iterator<Item = &'a str>) -> Option<Case> {
     let ty = it.next()?.to_string();
-    if ty != "i64" && ty != "u64" && ty != "f64" {
-        return None;
-    }
-    let threads: usize = it.next()?.parse().ok()?;
+    ty_spec(&ty)?;
+    let tt = it.next()?;
+    let (threads, ctxt): (usize, &'static str) = if tt == "g" {
+        (1, "g")
+    } else if let Some(n) = tt.strip_suffix('j') {
+        (n.parse().ok()?, "j")
+    } else if let Some(n) = tt.strip_suffix('s') {
+        (n.parse().ok()?, "s")
+    } else {
+        (tt.parse().ok()?, "")
+    };
     let n: usize = it.next()?.parse().ok()?;
     let mut ws = Vec::with_capacity(n.min(1 << 20));
+    let mut nz = Vec::with_capacity(n.min(1 << 20));
     for _ in 0..n {
-        ws.push(it.next()?.parse::<i128>().ok()?);
+        let t = it.next()?;
+        nz.push(t == "-0");
+        ws.push(t.parse::<i128>().ok()?);
     }
     let m: usize = it.next()?.parse().ok()?;
     let mut ids = Vec::with_capacity(m.min(1 << 20));
     for _ in 0..m {
         ids.push(it.next()?.parse().ok()?);
     }
-    Some(Case { ty, threads, ws, ids })
+    Some(Case { ty, threads, ctxt, ws, nz, ids })
 }
 
 enum Op {
     One(String, Case),
     Twice(String, Case, Case),
+    /// k calls at once in one pool of the given size
+    Many(String, usize, Vec<Case>),
 }
 
 fn parse_op(op: &str) -> Option<Op> {
@@ -123,6 +227,21 @@ fn parse_op(op: &str) -> Option<Op> {
         let a = parse_case(&mut it)?;
         let b = parse_case(&mut it)?;
         Op::Twice(algo, a, b)
+    } else if first == "many" {
+        let algo = it.next()?.to_string();
+        if !is_algo(&algo) {
+            return None;
+        }
+        let pool: usize = it.next()?.parse().ok()?;
+        let k: usize = it.next()?.parse().ok()?;
+        if k > 256 {
+            return None;
+        }
+        let mut cases = Vec::new();
+        for _ in 0..k {
+            cases.push(parse_case(&mut it)?);
+        }
+        Op::Many(algo, pool, cases)
     } else {
         if !is_algo(first) {
             return None;
@@ -137,58 +256,188 @@ fn parse_op(op: &str) -> Option<Op> {
 
 type Res = (Result<usize, coupe::Error>, Vec<usize>);
 
-/// One call of the real implementation on `ids` (in place).
-fn call(best: bool, ty: &str, ws: &[i128], ids: &mut [usize]) -> Result<usize, coupe::Error> {
-    match ty {
-        "i64" => {
-            let w: Vec<i64> = ws.iter().map(|&x| x as i64).collect();
-            if best {
-                coupe::VnBest.partition(ids, w)
-            } else {
-                coupe::VnFirst.partition(ids, &w[..])
+/// Hands `w` to the algorithm as the Rust input type named by `variant`.
+fn call_t<T>(best: bool, variant: &str, w: Vec<T>, ids: &mut [usize]) -> Result<usize, coupe::Error>
+where
+    T: coupe::VnBestWeight + coupe::VnFirstWeight + 'static,
+{
+    use std::convert::TryFrom;
+    let n = w.len();
+    if best {
+        match variant {
+            "slice_copied" => coupe::VnBest.partition(ids, w.iter().copied()),
+            "map" => coupe::VnBest.partition(ids, w.into_iter().map(|x| x)),
+            // inexact size_hint from here on
+            "filter" => coupe::VnBest.partition(ids, w.into_iter().filter(|_| true)),
+            "flat_map" => coupe::VnBest.partition(ids, w.into_iter().flat_map(std::iter::once)),
+            "from_fn" => {
+                let mut it = w.into_iter();
+                coupe::VnBest.partition(ids, std::iter::from_fn(move || it.next()))
             }
+            "chain" => {
+                let (a, b) = w.split_at(n / 3);
+                coupe::VnBest.partition(ids, a.iter().copied().chain(b.iter().copied()))
+            }
+            "deque" => coupe::VnBest.partition(ids, std::collections::VecDeque::from(w)),
+            "boxdyn" => {
+                let it: Box<dyn Iterator<Item = T>> = Box::new(w.into_iter());
+                coupe::VnBest.partition(ids, it)
+            }
+            "rev_rev" => coupe::VnBest.partition(ids, w.into_iter().rev().rev()),
+            "array" if n == 4 => match <[T; 4]>::try_from(w) {
+                Ok(a) => coupe::VnBest.partition(ids, a),
+                Err(w) => coupe::VnBest.partition(ids, w),
+            },
+            "array" if n == 8 => match <[T; 8]>::try_from(w) {
+                Ok(a) => coupe::VnBest.partition(ids, a),
+                Err(w) => coupe::VnBest.partition(ids, w),
+            },
+            _ => coupe::VnBest.partition(ids, w),
         }
-        "u64" => {
-            let w: Vec<u64> = ws.iter().map(|&x| x as u64).collect();
-            if best {
-                coupe::VnBest.partition(ids, w)
-            } else {
-                coupe::VnFirst.partition(ids, &w[..])
+    } else {
+        match variant {
+            "boxed" => {
+                let b: Box<[T]> = w.into_boxed_slice();
+                coupe::VnFirst.partition(ids, &b[..])
             }
-        }
-        _ => {
-            let w: Vec<f64> = ws.iter().map(|&x| x as f64).collect();
-            if best {
-                coupe::VnBest.partition(ids, w)
-            } else {
-                coupe::VnFirst.partition(ids, &w[..])
+            "subslice" => {
+                // a window into a larger allocation (offset start, trailing element)
+                let mut big: Vec<T> = vec![T::one(); 3];
+                big.extend(w);
+                big.push(T::one());
+                coupe::VnFirst.partition(ids, &big[3..3 + n])
             }
+            "array" if n == 4 => match <[T; 4]>::try_from(w) {
+                Ok(a) => coupe::VnFirst.partition(ids, &a[..]),
+                Err(w) => coupe::VnFirst.partition(ids, &w[..]),
+            },
+            "array" if n == 8 => match <[T; 8]>::try_from(w) {
+                Ok(a) => coupe::VnFirst.partition(ids, &a[..]),
+                Err(w) => coupe::VnFirst.partition(ids, &w[..]),
+            },
+            _ => coupe::VnFirst.partition(ids, &w[..]),
         }
     }
 }
 
-/// Runs the real implementation; returns the result and the array afterwards.
+/// The repository's TOOLS entry point (`coupe_tools::parse_algorithm("vn-best" | "vn-first")`):
+/// weights go in as a one-criterion `weight::Array`.
+fn call_tools(best: bool, arr: mesh_io::weight::Array, ids: &mut [usize]) -> Result<usize, coupe::Error> {
+    let mut algo = coupe_tools::parse_algorithm::<2>(if best { "vn-best" } else { "vn-first" })
+        .unwrap_or_else(|e| panic!("tools: parse_algorithm: {}", e));
+    let problem = coupe_tools::Problem::<2>::without_mesh(arr);
+    let mut runner = algo.to_runner(&problem);
+    match runner(ids) {
+        Ok(meta) => {
+            let s = meta.map(|m| format!("{:?}", m)).unwrap_or_default();
+            Ok(s.trim().parse::<usize>().unwrap_or_else(|_| panic!("tools: metadata {:?} is not a count", s)))
+        }
+        Err(e) => match e.downcast::<coupe::Error>() {
+            Ok(ce) => Err(ce),
+            Err(e) => panic!("tools: unexpected error {}", e),
+        },
+    }
+}
+
+fn f64_weights(c: &Case, scale: Option<i32>) -> Vec<f64> {
+    let f = 2f64.powi(scale.unwrap_or(0).max(-1000)) * 2f64.powi(scale.unwrap_or(0).min(-1000) + 1000);
+    c.ws
+        .iter()
+        .zip(&c.nz)
+        .map(|(&x, &z)| if z && x == 0 { -0.0 } else { x as f64 * f })
+        .collect()
+}
+
+/// One call of the real implementation on `ids` (in place).
+fn call(best: bool, c: &Case, ids: &mut [usize]) -> Result<usize, coupe::Error> {
+    let t = ty_spec(&c.ty).expect("type token");
+    let v = t.variant;
+    if v == "tools" {
+        let arr = if t.base == "f64" {
+            mesh_io::weight::Array::Floats(f64_weights(c, t.scale).into_iter().map(|w| vec![w]).collect())
+        } else {
+            mesh_io::weight::Array::Integers(c.ws.iter().map(|&x| vec![x as i64]).collect())
+        };
+        return call_tools(best, arr, ids);
+    }
+    match t.base {
+        "i64" => call_t(best, v, c.ws.iter().map(|&x| x as i64).collect::<Vec<_>>(), ids),
+        "u64" => call_t(best, v, c.ws.iter().map(|&x| x as u64).collect::<Vec<_>>(), ids),
+        "i32" => call_t(best, v, c.ws.iter().map(|&x| x as i32).collect::<Vec<_>>(), ids),
+        "u32" => call_t(best, v, c.ws.iter().map(|&x| x as u32).collect::<Vec<_>>(), ids),
+        "usize" => call_t(best, v, c.ws.iter().map(|&x| x as usize).collect::<Vec<_>>(), ids),
+        "i128" => call_t(best, v, c.ws.clone(), ids),
+        "f32" => call_t(
+            best,
+            v,
+            c.ws.iter().zip(&c.nz).map(|(&x, &z)| if z && x == 0 { -0.0f32 } else { x as f32 }).collect::<Vec<_>>(),
+            ids,
+        ),
+        _ => call_t(best, v, f64_weights(c, t.scale), ids),
+    }
+}
+
+/// Runs the real implementation in the calling context the case names; returns the result and
+/// the array afterwards.
 fn run_impl(algo: &str, c: &Case, watchdog: bool) -> Caught<Res> {
     let p = pool(c.threads);
     let best = algo == "best";
-    let ty = c.ty.clone();
-    let ws = c.ws.clone();
-    let mut ids = c.ids.clone();
+    let cc = c.clone();
     let threads = c.threads.max(1);
+    let ctxt = c.ctxt;
     let work = move || {
-        let r = call(best, &ty, &ws, &mut ids);
+        let mut ids = cc.ids.clone();
+        let r = call(best, &cc, &mut ids);
         (r, ids)
     };
     // already on a worker of a pool of the requested size (exhaustive sweep): call directly
-    let in_pool = coupe::rayon::current_thread_index().is_some()
+    let in_pool = ctxt.is_empty()
+        && coupe::rayon::current_thread_index().is_some()
         && coupe::rayon::current_num_threads() == threads;
     if in_pool {
-        catch(work)
-    } else if watchdog {
-        catch_timeout(60, move || p.install(work))
-    } else {
-        catch(move || p.install(work))
+        return catch(work);
     }
+    let placed = move || match ctxt {
+        // the global pool: this helper thread belongs to no pool
+        "g" => work(),
+        // from INSIDE a rayon task
+        "j" => p.install(move || coupe::rayon::join(work, || ()).0),
+        "s" => p.install(move || {
+            let mut out = None;
+            coupe::rayon::scope(|s| s.spawn(|_| out = Some(work())));
+            out.expect("scope ran the task")
+        }),
+        _ => p.install(work),
+    };
+    if watchdog || ctxt == "g" {
+        catch_timeout(60, placed)
+    } else {
+        catch(placed)
+    }
+}
+
+/// `many`: all calls at once, `cases.par_iter()` inside one pool (a worker that waits inside one
+/// call steals and runs another call on the same thread).
+fn run_many(algo: &str, pool_size: usize, cases: &[Case]) -> Caught<Vec<Option<Res>>> {
+    use coupe::rayon::iter::{IntoParallelRefIterator, ParallelIterator};
+    let best = algo == "best";
+    let cases = cases.to_vec();
+    let p = pool(pool_size);
+    catch_timeout(60, move || {
+        p.install(|| {
+            cases
+                .par_iter()
+                .map(|c| {
+                    std::panic::catch_unwind(std::panic::AssertUnwindSafe(|| {
+                        let mut ids = c.ids.clone();
+                        let r = call(best, c, &mut ids);
+                        (r, ids)
+                    }))
+                    .ok()
+                })
+                .collect()
+        })
+    })
 }
 
 /// `twice`: the same algorithm VALUE (`&mut` to one instance) and the same `Vec` buffer serve two
@@ -199,26 +448,13 @@ fn run_twice(algo: &str, a: &Case, b: &Case) -> Caught<(Res, Res)> {
     let (a, b) = (a.clone(), b.clone());
     let (pa, pb) = (pool(a.threads), pool(b.threads));
     catch_timeout(60, move || {
-        let mut vb = coupe::VnBest;
-        let mut vf = coupe::VnFirst;
+        // VnBest / VnFirst are unit structs: "the same value" is the same (only) value; what can
+        // carry history is the buffer and process-level state
         let mut buf: Vec<usize> = Vec::with_capacity(a.ids.len().max(b.ids.len()));
-        let mut one = |c: &Case, p: &Pool, buf: &mut Vec<usize>| -> Res {
+        let one = |c: &Case, p: &Pool, buf: &mut Vec<usize>| -> Res {
             buf.clear();
             buf.extend_from_slice(&c.ids);
-            let r = p.install(|| match c.ty.as_str() {
-                "i64" => {
-                    let w: Vec<i64> = c.ws.iter().map(|&x| x as i64).collect();
-                    if best { vb.partition(buf, w) } else { vf.partition(buf, &w[..]) }
-                }
-                "u64" => {
-                    let w: Vec<u64> = c.ws.iter().map(|&x| x as u64).collect();
-                    if best { vb.partition(buf, w) } else { vf.partition(buf, &w[..]) }
-                }
-                _ => {
-                    let w: Vec<f64> = c.ws.iter().map(|&x| x as f64).collect();
-                    if best { vb.partition(buf, w) } else { vf.partition(buf, &w[..]) }
-                }
-            });
+            let r = p.install(|| call(best, c, &mut buf[..]));
             (r, buf.clone())
         };
         let ra = one(&a, &pa, &mut buf);
@@ -351,7 +587,7 @@ fn judge(ctx: &mut Ctx, algo: &str, c: &Case, res: Caught<Res>) -> (String, Opti
         }
     };
     ctx.count(&format!("{}_{}", algo, out.split(' ').next().unwrap_or("")));
-    ctx.count(&format!("type_{}", c.ty));
+    ctx.count(&format!("type_{}", ty_spec(&c.ty).map(|t| if t.scale.is_some() { "f64_scaled" } else { t.base }).unwrap_or("?")));
     ctx.count(&format!("threads_{}", c.threads));
     if len_ok {
         ctx.count(&format!("parts_{}", if k <= 8 { k.to_string() } else if k <= 64 { "9..64".into() } else if k <= 257 { "65..257".into() } else { "258+".into() }));
@@ -366,17 +602,86 @@ pub fn run_op(ctx: &mut Ctx, op: &str) {
     run_op_w(ctx, op, true)
 }
 
+/// The reference run of a special case: same integers, +0.0 instead of -0.0, no scaling, the
+/// 64-bit type of the same class, a `Vec`, inside `pool.install`.  `None`: the case IS plain.
+fn baseline_of(c: &Case) -> Option<(Case, &'static str)> {
+    let t = ty_spec(&c.ty)?;
+    let class = if c.nz.iter().any(|&z| z) {
+        "negzero-dependent"
+    } else if t.scale.is_some() {
+        "scale-dependent"
+    } else if t.variant != "vec" || base64(t.base) != t.base {
+        "input-type-dependent"
+    } else if !c.ctxt.is_empty() {
+        "context-dependent"
+    } else {
+        return None;
+    };
+    Some((plain(base64(t.base), c.threads, c.ws.clone(), c.ids.clone()), class))
+}
+
+/// Canonical line of a result without judging it.
+fn canon(res: &Caught<Res>) -> String {
+    match res {
+        Caught::Ok((Ok(count), ids)) => format!("ok {} | {}", count, join(ids)),
+        Caught::Ok((Err(coupe::Error::NegativeValues), _)) => "negative".into(),
+        Caught::Ok((Err(coupe::Error::InputLenMismatch { .. }), _)) => "lenmismatch".into(),
+        Caught::Ok((Err(e), _)) => format!("err {:?}", e),
+        Caught::Panic(m) => format!("panic {}", m),
+        Caught::Hang => "hang".into(),
+    }
+}
+
+/// Counters of the special / plumbing / context classes a case belongs to.
+fn count_classes(ctx: &mut Ctx, c: &Case) {
+    let Some(t) = ty_spec(&c.ty) else { return };
+    if c.nz.iter().any(|&z| z) {
+        ctx.count(&format!("special:negzero_{}", if c.nz.iter().filter(|&&z| z).count() % 2 == 1 { "odd" } else { "even" }));
+    }
+    if let Some(k) = t.scale {
+        ctx.count(&format!("special:f64_scaled_2^{}", k));
+    }
+    if t.variant != "vec" {
+        ctx.count(&format!("plumbing:{}", t.variant));
+    }
+    if base64(t.base) != t.base {
+        ctx.count(&format!("plumbing:type_{}", t.base));
+    }
+    match c.ctxt {
+        "g" => ctx.count("context:global_pool"),
+        "j" => ctx.count("context:inside_join"),
+        "s" => ctx.count("context:inside_scope_spawn"),
+        _ => {}
+    }
+}
+
+/// Special cases must give the result of their plain counterpart (run here, fresh).
+fn against_baseline(algo: &str, c: &Case, out: &str) -> Option<(String, String)> {
+    let (b, class) = baseline_of(c)?;
+    let bout = canon(&run_impl(algo, &b, true));
+    if bout != out && !(bout.starts_with("panic") && out.starts_with("panic")) {
+        let cut = |s: &str| if s.len() > 300 { format!("{}…", &s[..300]) } else { s.to_string() };
+        Some((format!("{}@{}", class, algo), format!("special run: {} / plain run ({}): {}", cut(out), b.ty, cut(&bout))))
+    } else {
+        None
+    }
+}
+
 fn run_op_w(ctx: &mut Ctx, op: &str, watchdog: bool) {
     match parse_op(op) {
-        Some(Op::One(algo, c)) if in_contract(&c) => {
+        Some(Op::One(algo, c)) if in_contract(&algo, &c) => {
             let res = run_impl(&algo, &c, watchdog);
             let (out, verdict) = judge(ctx, &algo, &c, res);
+            count_classes(ctx, &c);
+            let dep = against_baseline(&algo, &c, &out);
             let idx = ctx.record(op.to_string(), out, nontrivial(&c));
             if let Some((sig, what)) = verdict {
                 ctx.fail(idx, sig, what);
+            } else if let Some((sig, what)) = dep {
+                ctx.fail(idx, &sig, what);
             }
         }
-        Some(Op::Twice(algo, a, b)) if in_contract(&a) && in_contract(&b) => {
+        Some(Op::Twice(algo, a, b)) if in_contract(&algo, &a) && in_contract(&algo, &b) => {
             let (ra, rb) = match run_twice(&algo, &a, &b) {
                 Caught::Ok((ra, rb)) => (Caught::Ok(ra), Caught::Ok(rb)),
                 Caught::Panic(m) => (Caught::Panic(m.clone()), Caught::Panic(m)),
@@ -390,8 +695,41 @@ fn run_op_w(ctx: &mut Ctx, op: &str, watchdog: bool) {
                 ctx.fail(idx, sig, what);
             }
         }
+        Some(Op::Many(algo, pool_size, cases)) if cases.iter().all(|c| in_contract(&algo, c)) => {
+            // (d) many calls at once; every result must be the sequential one
+            let rs: Vec<Caught<Res>> = match run_many(&algo, pool_size, &cases) {
+                Caught::Ok(v) => v
+                    .into_iter()
+                    .map(|r| match r {
+                        Some(r) => Caught::Ok(r),
+                        None => Caught::Panic("? (a concurrent call panicked)".into()),
+                    })
+                    .collect(),
+                Caught::Panic(m) => cases.iter().map(|_| Caught::Panic(m.clone())).collect(),
+                Caught::Hang => cases.iter().map(|_| Caught::Hang).collect(),
+            };
+            let mut outs = Vec::new();
+            let mut fails: Vec<(String, String)> = Vec::new();
+            for (c, r) in cases.iter().zip(rs) {
+                let (out, verdict) = judge(ctx, &algo, c, r);
+                if let Some((sig, what)) = verdict {
+                    fails.push((sig.to_string(), what));
+                } else {
+                    let seq = canon(&run_impl(&algo, &plain(&c.ty, 1, c.ws.clone(), c.ids.clone()), true));
+                    if seq != out {
+                        fails.push((format!("context-dependent@{}", algo), format!("concurrent: {} / sequential: {}", out, seq)));
+                    }
+                }
+                outs.push(out);
+            }
+            ctx.count(&format!("context:many_at_once_pool{}", pool_size));
+            let idx = ctx.record(op.to_string(), outs.join(" ;; "), cases.iter().any(nontrivial));
+            if let Some((sig, what)) = fails.into_iter().next() {
+                ctx.fail(idx, &sig, what);
+            }
+        }
         _ => {
-            // unparsable, or outside the exactness contract (overflowing sums, inexact f64)
+            // unparsable, or outside the exactness contract (overflowing sums, inexact floats)
             ctx.record(op.to_string(), "bad-op".into(), false);
         }
     }
@@ -531,19 +869,357 @@ fn many_moves_case(rng: &mut Rng, parts: usize, heavy_per_part: usize, units: us
         items.push((1, 0));
     }
     rng.shuffle(&mut items);
-    Case {
-        ty: ty.to_string(),
-        threads,
-        ws: items.iter().map(|x| x.0).collect(),
-        ids: items.iter().map(|x| x.1).collect(),
+    plain(ty, threads, items.iter().map(|x| x.0).collect(), items.iter().map(|x| x.1).collect())
+}
+
+/// Largest total of the weight type, in protocol units (f64: exact integers; `f64e971`: the
+/// unit is 2^971, so 2^53 - 1 units = f64::MAX).
+fn type_max(ty: &str) -> i128 {
+    match ty {
+        "i64" => i64::MAX as i128,
+        "u64" => u64::MAX as i128,
+        _ => (1i128 << 53) - 1,
     }
+}
+
+/// HALF-RANGE stream: one weight above half of the type's range (so `w + w`, `2 * w`, `w - (-w)`
+/// … do not fit although every total does), or two weights just below half of it, among a few
+/// small weights whose moves are what improves the gap.  Systematic over: both algorithms,
+/// 2 and 3 parts, i64 / u64 / f64 near 2^53 / f64 near 2^1023, the big weight first / at index 1
+/// (the first index `vn_first` visits) / in the middle / last, and three placements of the small
+/// weights (spread over the parts; all in the other parts; those visited before the big weight
+/// in the other parts – so that the scan of `vn_first` reaches the big weight).  A weight above
+/// half of the range is necessarily in the heaviest part (the other parts hold at most the
+/// rest of the total); "in the lighter part" is covered by the pairs just below half.
+fn half_range_stream(ctx: &mut Ctx) {
+    let mut rng = ctx.rng.clone();
+    let pools = [1usize, 2, 3, 4];
+    let mut no = 0usize;
+    for ty in ["i64", "u64", "f64", "f64e971"] {
+        let tmax = type_max(ty);
+        let half = tmax / 2;
+        for parts in [2usize, 3] {
+            for n in [3usize, 8] {
+                let mut positions = vec![0usize, 1, n / 2, n - 1];
+                positions.dedup();
+                for &pos in &positions {
+                    for placement in 0..3usize {
+                        for big_kind in 0..3usize {
+                            let smalls: Vec<i128> = (0..n).map(|_| rng.range(1, 1000) as i128).collect();
+                            let ssum: i128 = smalls.iter().sum::<i128>() - smalls[pos];
+                            let big = match big_kind {
+                                0 => half + 1,
+                                1 => half + 1 + rng.range(1, 1 << 20) as i128,
+                                _ => tmax - ssum, // the total is exactly the type's maximum
+                            };
+                            let bp = rng.usize(parts); // part of the big weight
+                            let other = |rng: &mut Rng| (bp + 1 + rng.usize(parts - 1)) % parts;
+                            let mut ws = smalls.clone();
+                            ws[pos] = big;
+                            // visiting order of vn_first: 1, 2, …, n-1, 0
+                            let before_big = |j: usize| (j + n - 1) % n < (pos + n - 1) % n;
+                            let mut ids: Vec<usize> = (0..n)
+                                .map(|j| match placement {
+                                    0 => rng.usize(parts),
+                                    1 => other(&mut rng),
+                                    _ => if before_big(j) { other(&mut rng) } else { rng.usize(parts) },
+                                })
+                                .collect();
+                            ids[pos] = bp;
+                            // the part count is 1 + max id: make the last part occur
+                            if !ids.contains(&(parts - 1)) {
+                                let j = (pos + 1) % n;
+                                ids[j] = parts - 1;
+                            }
+                            for algo in ALGOS {
+                                no += 1;
+                                ctx.count(&format!("corner:half_range_{}", ty));
+                                run_op(ctx, &format_case(algo, &plain(ty, pools[no % 4], ws.clone(), ids.clone())));
+                            }
+                        }
+                    }
+                }
+            }
+            // two weights just below half of the range: same part / different parts, every pair of
+            // the positions first / 1 / middle / last
+            let n = 7usize;
+            let spots = [0usize, 1, n / 2, n - 1];
+            for a in 0..spots.len() {
+                for b in 0..spots.len() {
+                    if a == b {
+                        continue;
+                    }
+                    for same in [false, true] {
+                        let mut ws: Vec<i128> = (0..n).map(|_| rng.range(1, 1000) as i128).collect();
+                        let ssum: i128 = ws.iter().sum::<i128>() - ws[spots[a]] - ws[spots[b]];
+                        // w1 + w2 + ssum <= tmax - 0/1
+                        ws[spots[a]] = half - rng.range(0, 3) as i128;
+                        ws[spots[b]] = half - ssum + rng.range(0, 1) as i128 - 1;
+                        let pa = rng.usize(parts);
+                        let pb = if same { pa } else { (pa + 1 + rng.usize(parts - 1)) % parts };
+                        let mut ids: Vec<usize> = (0..n).map(|_| rng.usize(parts)).collect();
+                        ids[spots[a]] = pa;
+                        ids[spots[b]] = pb;
+                        if !ids.contains(&(parts - 1)) {
+                            ids[2] = parts - 1;
+                        }
+                        for algo in ALGOS {
+                            no += 1;
+                            ctx.count(&format!("corner:two_below_half_{}", ty));
+                            run_op(ctx, &format_case(algo, &plain(ty, pools[no % 4], ws.clone(), ids.clone())));
+                        }
+                    }
+                }
+            }
+        }
+    }
+    ctx.rng = rng;
+    ctx.notes.push("half-range stream: one weight above half of the type's range (half+1, half+random, total exactly the type's maximum) or two weights just below half, systematic over both algorithms x 2/3 parts x i64/u64/f64 (2^53 regime)/f64 scaled by 2^971 (weights up to 2^1023, finite totals) x position first/1/middle/last x three placements of the small weights".to_string());
+}
+
+// ------------------------------------------------- special values / plumbing / context streams
+
+fn small_case(rng: &mut Rng, ty: &str, threads: usize, n: usize, parts: usize, wmax: i64) -> Case {
+    let ws: Vec<i128> = (0..n).map(|_| rng.range(0, wmax) as i128).collect();
+    let mut ids: Vec<usize> = (0..n).map(|_| rng.usize(parts)).collect();
+    if n > 0 {
+        let j = rng.usize(n);
+        ids[j] = parts - 1;
+    }
+    plain(ty, threads, ws, ids)
+}
+
+/// Runs `ops` in a fresh child process (`verif-harness replay`), so that the FIRST call of that
+/// process is `ops[0]`; returns the child's canonical output lines.
+fn child_outputs(ops: &[String], tag: usize) -> Option<Vec<String>> {
+    let exe = std::env::current_exe().ok()?;
+    let dir = std::env::temp_dir().join(format!("c14-child-{}-{}", std::process::id(), tag));
+    std::fs::create_dir_all(&dir).ok()?;
+    let f = dir.join("ops.txt");
+    let text: String = ops.iter().map(|o| format!("C14 {}\n", o)).collect();
+    std::fs::write(&f, text).ok()?;
+    let out = dir.join("out");
+    let mut child = std::process::Command::new(exe)
+        .arg("replay")
+        .arg("C14")
+        .arg("--ops")
+        .arg(&f)
+        .arg("--out")
+        .arg(&out)
+        .stdout(std::process::Stdio::null())
+        .stderr(std::process::Stdio::null())
+        .spawn()
+        .ok()?;
+    let t0 = std::time::Instant::now();
+    let ok = loop {
+        match child.try_wait() {
+            Ok(Some(st)) => break st.success(),
+            Ok(None) => {
+                if t0.elapsed() > std::time::Duration::from_secs(120) {
+                    let _ = child.kill();
+                    let _ = child.wait();
+                    break false;
+                }
+                std::thread::sleep(std::time::Duration::from_millis(10));
+            }
+            Err(_) => break false,
+        }
+    };
+    let lines = if ok {
+        std::fs::read_to_string(out.join("impl.txt")).ok().map(|t| t.lines().map(|l| l.to_string()).collect())
+    } else {
+        None
+    };
+    let _ = std::fs::remove_dir_all(&dir);
+    lines
+}
+
+fn special_stream(ctx: &mut Ctx) {
+    let quick = ctx.quick();
+    let mut rng = ctx.rng.clone();
+    let pools = [1usize, 2, 3, 4, 16];
+    let mut no = 0usize;
+
+    // ---- 1. signed zero: -0.0 is a legal non-negative weight (an odd and an even number of them)
+    for algo in ALGOS {
+        for ty in ["f64", "f32", "f64e-1073", "f64e971", "f64@tools"] {
+            for (n, parts) in [(6usize, 2usize), (9, 3), (10, 4)] {
+                for shape in 0..4usize {
+                    no += 1;
+                    let mut c = small_case(&mut rng, ty, pools[no % 5], n, parts, 9);
+                    // zeros at about half of the positions
+                    let zeros: Vec<usize> = (0..n).filter(|j| (j + shape) % 2 == 0).collect();
+                    for &j in &zeros {
+                        c.ws[j] = 0;
+                    }
+                    match shape {
+                        // an odd number of -0.0
+                        0 => { for &j in zeros.iter().take(1 + 2 * (zeros.len().saturating_sub(1) / 2).min(1)) { c.nz[j] = true; } }
+                        // an even number
+                        1 => { for &j in zeros.iter().take(2) { c.nz[j] = true; } }
+                        // one part holds nothing but -0.0 weights
+                        2 => { for j in 0..n { if c.ids[j] == 0 { c.ws[j] = 0; c.nz[j] = true; } } }
+                        // every weight is -0.0 (zero total: Ok(0), array untouched)
+                        _ => { for j in 0..n { c.ws[j] = 0; c.nz[j] = true; } }
+                    }
+                    run_op(ctx, &format_case(algo, &c));
+                }
+            }
+        }
+    }
+
+    // ---- 2. subnormal and extreme magnitudes: the integers times an exact power of two
+    for algo in ALGOS {
+        for parts in [2usize, 3, 5] {
+            no += 1;
+            let th = pools[no % 5];
+            // 64 weights of about 1e-310 (subnormal; unit 2^-1073)
+            let ids: Vec<usize> = (0..64).map(|j| if j == 7 { parts - 1 } else { rng.usize(parts) }).collect();
+            let ws: Vec<i128> = (0..64).map(|_| 10_000_000_000_000 + rng.range(0, 1000) as i128).collect();
+            run_op(ctx, &format_case(algo, &plain("f64e-1073", th, ws, ids)));
+            // tiny subnormals: 5e-324 .. 1e-320 (all even multiples of the smallest subnormal)
+            run_op(ctx, &format_case(algo, &small_case(&mut rng, "f64e-1073", th, 12, parts, 1000)));
+            // the smallest normal 2^-1022 (= 2^51 units) on both sides, subnormal and normal mixed
+            let mut c = small_case(&mut rng, "f64e-1073", th, 10, parts, 1 << 20);
+            for (j, d) in [(1usize, -1i128), (4, 0), (6, 1)] {
+                c.ws[j] = (1i128 << 51) + d;
+            }
+            run_op(ctx, &format_case(algo, &c));
+            // the same around 2^-1022 as the TOTAL
+            let mut c = small_case(&mut rng, "f64e-1073", th, 10, parts, 1 << 47);
+            c.ws[3] += (1i128 << 51) - c.ws.iter().sum::<i128>().min(1 << 51);
+            run_op(ctx, &format_case(algo, &c));
+            // a few weights around 5e307 (2^1021.5), finite total, total x 1.01 overflows
+            let mut c = small_case(&mut rng, "f64e971", th, 9, parts, 1 << 30);
+            for j in [1usize, 2, 5] {
+                c.ws[j] = 2_500_000_000_000_000 + rng.range(0, 1 << 40) as i128; // ~ 2^51.15 units
+            }
+            let rest = (1i128 << 53) - 1 - c.ws.iter().sum::<i128>();
+            c.ws[7] = rest - rng.range(0, 1 << 44) as i128; // total within 0.2 % of f64::MAX
+            run_op(ctx, &format_case(algo, &c));
+            // one weight f64::MAX/2 (within one unit), the rest tiny relative to it
+            for big in [(1i128 << 52) - 1, 1i128 << 52] {
+                let mut c = small_case(&mut rng, "f64e971", th, 7, parts, 1000);
+                c.ws[1] = big;
+                run_op(ctx, &format_case(algo, &c));
+            }
+            // middle scales, both directions
+            for k in [-1050i32, -1022, -537, 511, 900, 970] {
+                run_op(ctx, &format_case(algo, &small_case(&mut rng, &format!("f64e{}", k), th, 11, parts, 1 << 30)));
+            }
+        }
+    }
+
+    // ---- 4. input-type plumbing: every input type / weight type the impl accepts, same data
+    for algo in ALGOS {
+        let variants: &[&str] = if algo == "best" { &BEST_VARIANTS } else { &FIRST_VARIANTS };
+        for &v in variants {
+            for base in ["i64", "u64", "f64", "i32", "u32", "f32", "usize", "i128"] {
+                if v == "tools" && !(base == "i64" || base == "f64") {
+                    continue;
+                }
+                if v == "vec" && base64(base) == base {
+                    continue; // the plain case
+                }
+                let sizes: &[usize] = if v == "array" { &[4, 8] } else if quick { &[5, 37] } else { &[2, 5, 37, 300] };
+                for &n in sizes {
+                    no += 1;
+                    let parts = 2 + no % 4;
+                    let c = small_case(&mut rng, &format!("{}@{}", base, v), pools[no % 5], n, parts.min(n.max(1)), 60);
+                    run_op(ctx, &format_case(algo, &c));
+                }
+            }
+        }
+        // errors through inexact-size iterators / odd slices: negative weight, length mismatch
+        for &v in variants {
+            if v == "array" {
+                continue;
+            }
+            let mut c = small_case(&mut rng, &format!("i64@{}", v), 2, 7, 3, 9);
+            c.ws[rng.usize(7)] = -3;
+            run_op(ctx, &format_case(algo, &c));
+            let mut c = small_case(&mut rng, &format!("f64@{}", v), 3, 7, 3, 9);
+            c.ids.truncate(5);
+            run_op(ctx, &format_case(algo, &c));
+        }
+    }
+
+    // ---- 5. calling context: global pool, inside a join task, inside a scope spawn
+    for algo in ALGOS {
+        for ctxt in ["g", "j", "s"] {
+            for &th in if ctxt == "g" { &[1usize][..] } else { &[1usize, 2, 3, 16][..] } {
+                for n in [9usize, 700, 5003] {
+                    no += 1;
+                    let mut c = small_case(&mut rng, TYPES[no % 3], th, n, 2 + no % 5, 1000);
+                    c.ctxt = ctxt;
+                    run_op(ctx, &format_case(algo, &c));
+                }
+            }
+        }
+        // (d) many calls at once on pools of 4 and 16 threads, 8-32 concurrent calls
+        for pool_size in [4usize, 16] {
+            for k in if quick { &[8usize, 32][..] } else { &[8usize, 16, 32, 64][..] } {
+                let mut s = format!("many {} {} {}", algo, pool_size, k);
+                for j in 0..*k {
+                    no += 1;
+                    let n = match j % 4 {
+                        0 => 3 + rng.usize(20),
+                        1 => 100 + rng.usize(400),
+                        2 => 1000 + rng.usize(2000),
+                        _ => 4097 + rng.usize(500),
+                    };
+                    let c = small_case(&mut rng, TYPES[no % 3], 1, n, 2 + no % 7, 1000);
+                    push_case(&mut s, &c);
+                }
+                run_op(ctx, &s);
+            }
+        }
+    }
+
+    // ---- 6. process-level state: the first call of a fresh process is X, then other
+    //         instantiations; every line must equal the in-process result
+    let firsts: [(&str, &str); 6] =
+        [("best", "f64"), ("first", "f64"), ("best", "u64"), ("first", "i32"), ("best", "f32@filter"), ("first", "i64@tools")];
+    for (tag, (a0, t0)) in firsts.iter().enumerate() {
+        let mut ops: Vec<String> = Vec::new();
+        ops.push(format_case(a0, &small_case(&mut rng, t0, 2, 12, 3, 50)));
+        for j in 0..5usize {
+            let algo = ALGOS[(tag + j) % 2];
+            let ty = ["i64", "f64", "u64", "f32", "i128", "f64e-1073", "u32"][(tag * 3 + j) % 7];
+            ops.push(format_case(algo, &small_case(&mut rng, ty, pools[(tag + j) % 5], 8 + 3 * j, 2 + j % 3, 50)));
+        }
+        let child = child_outputs(&ops, tag);
+        for (j, op) in ops.iter().enumerate() {
+            let idx = ctx.ops.len();
+            run_op(ctx, op);
+            match &child {
+                Some(lines) => {
+                    ctx.count("context:fresh_process_sequence_op");
+                    if ctx.ops.len() > idx && lines.get(j) != ctx.impl_out.get(idx) {
+                        let algo = op.split(' ').next().unwrap_or("?").to_string();
+                        ctx.fail(
+                            idx,
+                            &format!("process-state-dependent@{}", algo),
+                            format!(
+                                "op #{} of a fresh process whose first call is `{} {}`: {:?}; in this process: {:?}",
+                                j, a0, t0, lines.get(j), ctx.impl_out.get(idx)
+                            ),
+                        );
+                    }
+                }
+                None => ctx.count("context:fresh_process_unavailable"),
+            }
+        }
+    }
+    ctx.rng = rng;
+    ctx.notes.push("special / plumbing / context stream: -0.0 weights (odd and even counts, a part of only -0.0, all -0.0) compared with the +0.0 run; f64 weights scaled by exact powers of two from 2^-1073 (subnormal weights and totals, the smallest normal on both sides) to 2^971 (f64::MAX/2, totals within 0.2 % of f64::MAX) compared with the unscaled run; every input type the Partition impls accept (VnBest: Vec, slice iterators, arrays, VecDeque, boxed dyn iterator, adaptors with inexact size_hint: filter / flat_map / from_fn / chain; VnFirst: Vec, boxed slice, window of a larger allocation, array) and weight types i32 / u32 / f32 / usize / i128 next to i64 / u64 / f64, and the tools entry point coupe_tools::parse_algorithm(\"vn-best\" | \"vn-first\"), compared with the Vec / 64-bit run; calling contexts: global pool, inside rayon::join, inside a scope spawn, 8-32 (thorough 64) calls at once in pools of 4 and 16 threads compared with the sequential result; six fresh child processes whose first call is a given instantiation followed by other types / algorithms, compared line by line with this process".to_string());
 }
 
 fn large_stream(ctx: &mut Ctx) {
     let quick = ctx.quick();
     let mut rng = ctx.rng.clone();
     let pools = [1usize, 2, 3, 16];
-    let mut rot = 0usize;
+    let mut rot = rng.usize(12); // the order of the instantiations differs from run to run
     let mut next = |rot: &mut usize| {
         *rot += 1;
         (TYPES[*rot % 3], pools[*rot % 4])
@@ -580,7 +1256,7 @@ fn large_stream(ctx: &mut Ctx) {
         ctx.count(&format!("corner:ids_{:?}", shape).to_lowercase());
         for algo in ALGOS {
             let (ty, threads) = next(&mut rot);
-            run_large(ctx, algo, &Case { ty: ty.to_string(), threads, ws: ws.clone(), ids: ids.clone() });
+            run_large(ctx, algo, &plain(ty, threads, ws.clone(), ids.clone()));
         }
     }
 
@@ -609,11 +1285,11 @@ fn large_stream(ctx: &mut Ctx) {
         let ids: Vec<usize> = (0..n).map(|j| if j == 0 { 0 } else { j % 2 }).collect();
         let (ty, threads) = next(&mut rot);
         ctx.count("corner:first_full_cycle");
-        run_large(ctx, "first", &Case { ty: ty.to_string(), threads, ws, ids });
+        run_large(ctx, "first", &plain(ty, threads, ws, ids));
         let ws = vec![3i128; n + 1];
         let ids: Vec<usize> = (0..n + 1).map(|j| j * 2 / (n + 1)).collect();
         let (ty, threads) = next(&mut rot);
-        run_large(ctx, "first", &Case { ty: ty.to_string(), threads, ws, ids });
+        run_large(ctx, "first", &plain(ty, threads, ws, ids));
     }
 
     // VnFirst: ~n/2 elements of the heaviest part are tried and rejected (too heavy to move)
@@ -631,12 +1307,7 @@ fn large_stream(ctx: &mut Ctx) {
         items.insert(0, (2, 0));
         let (ty, threads) = next(&mut rot);
         ctx.count("corner:first_late_accept");
-        run_large(ctx, "first", &Case {
-            ty: ty.to_string(),
-            threads,
-            ws: items.iter().map(|x| x.0).collect(),
-            ids: items.iter().map(|x| x.1).collect(),
-        });
+        run_large(ctx, "first", &plain(ty, threads, items.iter().map(|x| x.0).collect(), items.iter().map(|x| x.1).collect()));
     }
 
     // part-count corners
@@ -648,7 +1319,7 @@ fn large_stream(ctx: &mut Ctx) {
             for algo in ALGOS {
                 let (ty, threads) = next(&mut rot);
                 ctx.count(&format!("corner:parts_{}", parts));
-                run_op(ctx, &format_case(algo, &Case { ty: ty.to_string(), threads, ws: ws.clone(), ids: ids.clone() }));
+                run_op(ctx, &format_case(algo, &plain(ty, threads, ws.clone(), ids.clone())));
             }
         }
     }
@@ -658,10 +1329,10 @@ fn large_stream(ctx: &mut Ctx) {
         let ws = make_weights(&mut rng, n, 0);
         let (ty, threads) = next(&mut rot);
         ctx.count("corner:thousands_of_parts");
-        run_large(ctx, "best", &Case { ty: ty.to_string(), threads, ws: ws.clone(), ids: ids.clone() });
+        run_large(ctx, "best", &plain(ty, threads, ws.clone(), ids.clone()));
         if parts <= 5000 {
             let (ty, threads) = next(&mut rot);
-            run_large(ctx, "first", &Case { ty: ty.to_string(), threads, ws, ids });
+            run_large(ctx, "first", &plain(ty, threads, ws, ids));
         }
     }
     // exactly two / three elements with far-apart part ids
@@ -673,7 +1344,7 @@ fn large_stream(ctx: &mut Ctx) {
             let (ty, threads) = next(&mut rot);
             let ws: Vec<i128> = (0..ids.len()).map(|_| rng.range(1, 9) as i128).collect();
             ctx.count("corner:two_three_elements");
-            run_op(ctx, &format_case(algo, &Case { ty: ty.to_string(), threads, ws, ids: ids.clone() }));
+            run_op(ctx, &format_case(algo, &plain(ty, threads, ws, ids.clone())));
         }
     }
     // type corners: one weight above half of the type's headroom, total still fits
@@ -688,18 +1359,15 @@ fn large_stream(ctx: &mut Ctx) {
                 }
                 let ids = make_ids(&mut rng, n, parts, IdShape::Random);
                 ctx.count(&format!("corner:headroom_{}", ty));
-                run_op(ctx, &format_case(algo, &Case { ty: ty.to_string(), threads: pools[parts % 4], ws, ids }));
+                run_op(ctx, &format_case(algo, &plain(ty, pools[parts % 4], ws, ids)));
             }
         }
     }
     // reuse: same algorithm value, same buffer, second input longer and with more parts
     for algo in ALGOS {
         for &(n1, p1, n2, p2) in &[(9usize, 3usize, 12usize, 5usize), (8193, 3, 9001, 65), (300, 257, 40, 2)] {
-            let mk = |rng: &mut Rng, n: usize, p: usize, ty: &str, threads: usize, shape: IdShape| Case {
-                ty: ty.to_string(),
-                threads,
-                ws: make_weights(rng, n, n),
-                ids: make_ids(rng, n, p, shape),
+            let mk = |rng: &mut Rng, n: usize, p: usize, ty: &str, threads: usize, shape: IdShape| {
+                plain(ty, threads, make_weights(rng, n, n), make_ids(rng, n, p, shape))
             };
             let (ty, threads) = next(&mut rot);
             let a = mk(&mut rng, n1, p1, ty, threads, IdShape::Random);
@@ -717,6 +1385,8 @@ fn large_stream(ctx: &mut Ctx) {
 pub fn generate(ctx: &mut Ctx) {
     // ---- large-n / corner / reuse stream first (its cases matter most if a watchdog limit stops the run)
     large_stream(ctx);
+    half_range_stream(ctx);
+    special_stream(ctx);
 
     // ---- exhaustive sub-space: weights 0..=3, ids 0..=2, every length up to maxlen,
     //      both algorithms on every case; weight type and pool size rotate with the case number
